@@ -34,11 +34,14 @@ type proc struct {
 }
 
 type parent struct {
-	run       *hx.Run
-	p         *proc
-	detail    bool
-	restarts  int
-	modelCall int
+	run          *hx.Run
+	p            *proc
+	detail       bool
+	restarts     int
+	modelCall    int
+	seen         map[string]int
+	unclassified int
+	leaks        int
 }
 
 func (pa *parent) start() error {
@@ -135,6 +138,12 @@ func (pa *parent) exec(c *Case) CaseResult {
 			return CaseResult{Kind: "harness", Oracle: "harness", What: "bad worker reply: " + err.Error()}
 		}
 		pa.modelCall += res.ModelCalls
+		if res.Oracle == "leak" {
+			// leaked goroutines stay in the worker; replace it now and then so that stack dumps stay small
+			if pa.leaks++; pa.leaks%100 == 0 {
+				pa.stop()
+			}
+		}
 		if res.Fatal {
 			pa.stop()
 			pa.restarts++
@@ -266,6 +275,16 @@ func (pa *parent) record(c Case, res CaseResult, doShrink bool) {
 		run.Violate("correspondence", "harness failure: "+res.What, "", true, c)
 		return
 	}
+	vk := res.Kind + ":" + res.Oracle + ":" + res.FindingKey
+	pa.seen[vk]++
+	if res.FindingKey == "" {
+		pa.unclassified++
+	}
+	if pa.seen[vk] > 3 {
+		run.Count("violation-not-shrunk(" + res.Oracle + "):" + res.FindingKey)
+		run.Violate(res.Kind, res.What, res.FindingKey, res.Kind == "correspondence", c) // hx keeps 3 per key, counts the rest
+		return
+	}
 	if doShrink {
 		c, res = pa.shrink(c, res)
 	}
@@ -286,7 +305,7 @@ func main() {
 		}
 	}
 	run := hx.Init("C15")
-	pa := &parent{run: run, detail: run.Replay != ""}
+	pa := &parent{run: run, detail: run.Replay != "", seen: map[string]int{}}
 	defer pa.stop()
 	run.SetRule("case = query over {Int, Int!, Obj, Obj!, [Obj], connection, time-based connection} fields (queries and serial mutations) × per-invocation assignment {sync, Go, Batch k} × outcome {value, error, null} × completion schedule (gates released per idle round in rank order before/after the idle handler is entered, free tasks with seeded delays) × GOMAXPROCS; distinct = distinct (query, assignment, per-round deliveries and batch contents); non-trivial = at least one idle point with >= 2 promises outstanding")
 
@@ -348,12 +367,15 @@ func main() {
 		c := c
 		pa.record(c, pa.exec(&c), true)
 		nEx++
+		if pa.unclassified > 12 {
+			break
+		}
 	}
 	run.CountN("family:exhaustive-3-siblings", nEx)
 	run.Note("exhaustive family: %d of %d cases (modes^3 x release orders; stride %d selected by the seed)", nEx, len(ex), stride)
 	// abandonment family
 	nAb := run.Scale(500, 6000)
-	for i := 0; i < nAb; i++ {
+	for i := 0; i < nAb && pa.unclassified <= 12; i++ {
 		c := abandonCase(rnd.Fork())
 		pa.record(c, pa.exec(&c), true)
 		if i < 2 {
@@ -369,7 +391,7 @@ func main() {
 		if i < 3 {
 			run.Sample(c)
 		}
-		if run.Violations() > 12 {
+		if pa.unclassified > 12 {
 			break
 		}
 	}
